@@ -29,6 +29,9 @@ RULE = (
     "var_N, ast.unparse and canonical SUT references; one evaluation per F1 test function; distinct = hash of the normalised F1 function"
 )
 ASSUMPTIONS = [
+    "SUT modules whose module-level variables are changed by calls (sut_corpus.STATEFUL_MODULE) are skipped: the writer decides xfail / "
+    "pytest.raises by re-executing the test, so with state left by earlier executions the second export is not a function of the parsed "
+    "test alone (that mechanism is C18's finding on-sut-module-variable, not the seed parser's)",
     "the round trip is performed in the interpreter of the run right after run_pynguin() returned (instrumented SUT module, tracer "
     "disabled), i.e. in the state in which the real export ran; initial_population_mutations is forced to 0",
     "`X` and `<alias>.X` are the same reference when the written file imports X from the SUT (the parser rewrites to the alias form)",
@@ -444,7 +447,14 @@ def check_run(ctx, r):
 def run_chunk(spec, ctx):
     from vlib import genfiles
 
+    from vlib import sut_corpus
+
     for i, c in enumerate(genfiles.cases_of(spec)):
+        if c["sut"] in sut_corpus.STATEFUL_MODULE:
+            # the writer decides xfail / pytest.raises by re-executing the test: with module-level state left by earlier
+            # executions the second export is not a function of the parsed test alone (that is C18's finding, not the parser's)
+            ctx.count("cases_skipped:stateful-sut-module")
+            continue
         r = genfiles.run_case(ctx, c, i)
         if r is None:
             continue
